@@ -63,3 +63,40 @@ func badRangedSum_ensures() int {
 	}
 	return s
 }
+
+// a write_once field read as nil in one critical section may have been written by another holder before the next one
+type once struct {
+	mu  sync.Mutex
+	val *int
+}
+
+func (o *once) okSetOnce(p *int) {
+	o.mu.Lock()
+	defer o.mu.Unlock()
+	if o.val == nil {
+		o.val = p
+	}
+}
+
+func (o *once) okReadAfterSeen() int {
+	o.mu.Lock()
+	v := o.val
+	o.mu.Unlock()
+	if v == nil {
+		return 0
+	}
+	o.mu.Lock()
+	defer o.mu.Unlock()
+	return *o.val // a written value stays: still non-nil
+}
+
+func (o *once) badSetAfterRelease_writeonce(p *int) {
+	o.mu.Lock()
+	v := o.val
+	o.mu.Unlock()
+	if v == nil {
+		o.mu.Lock()
+		o.val = p // somebody else may have set it between the two critical sections
+		o.mu.Unlock()
+	}
+}
